@@ -15,6 +15,8 @@ package main
 
 import (
 	"fmt"
+	"sort"
+	"strings"
 
 	"github.com/jamespfennell/gtfs"
 	gtfsrt "github.com/jamespfennell/gtfs/proto"
@@ -25,6 +27,9 @@ func c07Harness(nPairs int, extras, conflicts bool) Harness {
 		am := genAssoc(c, nPairs, extras, conflicts)
 		b := marshalFeed(am.msg)
 		c.Input(hash64(string(b)), len(am.msg.Entity) >= 2, func() string { return am.key + "order=" + entityOrder(am.msg) + "\n" + feedText(am.msg) })
+		if c.Free("preceded_by_conflicting_parse", 2) == 1 {
+			parseRT(c, conflictingMessage(), &gtfs.ParseRealtimeOptions{})
+		}
 		c.SetMapMode(mapFree)
 		r, err, ok := parseRT(c, b, &gtfs.ParseRealtimeOptions{})
 		c.SetMapMode(mapFixed)
@@ -55,7 +60,16 @@ func c07Harness(nPairs int, extras, conflicts bool) Harness {
 				seen[*id] = i
 			}
 		}
-		got := dumpRealtime(r, rtDumpOpts{links: true, sortVehicles: true})
+		// trips in order, vehicles as a multiset, links; alerts as a multiset here (a permutation
+		// legitimately permutes the alerts among themselves; their feed order is checked against
+		// the reference below)
+		got := dumpRealtime(r, rtDumpOpts{links: true, sortVehicles: true, noAlerts: true})
+		var alertDumps []string
+		for i := range r.Alerts {
+			alertDumps = append(alertDumps, dumpAlert(&r.Alerts[i]))
+		}
+		sort.Strings(alertDumps)
+		got += strings.Join(alertDumps, "\n")
 		c.Outcome(got)
 		if am.conflicts {
 			c.Witness("conflicting_duplicates")
